@@ -41,7 +41,7 @@ type Config struct {
 	Q       int    `json:"queue"`
 	B       int    `json:"burst"`
 	BClass  string `json:"burst_class"` // 1 | q | q+w | q+w+1 | 2(q+w) | 10(q+w)
-	Dur     string `json:"handler"`     // 0 | 1ms | 5ms | prng | gate
+	Dur     string `json:"handler"`     // 0 | 1ms | 5ms | 20ms | prng | gate
 	K       int    `json:"stop_after"`  // requests double-flushed before Stop is called
 	Rest    string `json:"rest"`        // concurrent | after | split : where the b-k others go
 	Share   bool   `json:"shared_conn"` // server connection also carries an unrelated subscription
@@ -59,6 +59,20 @@ type Config struct {
 	Early   string `json:"stop_at_serve_start,omitempty"`
 	EarlyN  int    `json:"early_yields,omitempty"`
 	EarlyUs int    `json:"early_sleep_us,omitempty"`
+	// StopFrom != "": Stop is called from inside the request stream, on a
+	// worker goroutine, by the "shutdown" request S that is published after
+	// K1 of the K requests (all K+1 are double-flushed before S may call
+	// Stop): "processor" (the FProcessor handling S) | "started" | "finished"
+	// (the event handler invoked for S).
+	StopFrom string `json:"stop_from_worker,omitempty"`
+	K1       int    `json:"requests_before_shutdown_request,omitempty"`
+	// DrainTO: option of the SERVER's connection: "" = rig default
+	// (nats.Connect, DrainTimeout 30s) | "bare" (nats.Options literal,
+	// DrainTimeout 0) | a duration for nats.DrainTimeout(d).
+	DrainTO string `json:"conn_drain_timeout,omitempty"`
+	// Probe (never in the default sweep): sole worker calls Stop with more
+	// requests behind it than the queue holds.
+	SoleProbe bool `json:"sole_worker_probe,omitempty"`
 }
 
 // Snap is a snapshot of the boundary counters.
@@ -106,6 +120,8 @@ type Result struct {
 	WantSubs  int `json:"subs_wanted"`
 }
 
+type shutdownKey struct{}
+
 const (
 	classPre    = 1 // double-flushed before Stop was called: must be processed exactly once
 	classDuring = 2 // published while Stop may be running: at most once
@@ -122,6 +138,7 @@ type recProc struct {
 	dur     string
 	seed    int64
 	gate    chan struct{}
+	onS     func() // processor-initiated Stop (kind 2 request), may be nil
 }
 
 func (p *recProc) AddMiddleware(frugal.ServiceMiddleware)    {}
@@ -156,14 +173,21 @@ func (p *recProc) Process(in, out *frugal.FProtocol) error {
 		time.Sleep(time.Millisecond)
 	case "5ms":
 		time.Sleep(5 * time.Millisecond)
+	case "20ms":
+		time.Sleep(20 * time.Millisecond)
 	case "prng":
 		h := uint64(p.seed)*0x9E3779B97F4A7C15 ^ id*0xC2B2AE3D27D4EB4F
 		h ^= h >> 29
 		time.Sleep(time.Duration(h%3000) * time.Microsecond)
 	case "gate":
-		<-p.gate
+		if buf[8] != 2 { // the shutdown request itself never waits for the gate (the gate opens when Stop is called)
+			<-p.gate
+		}
 	}
-	if buf[8] == 0 { // two-way
+	if buf[8] == 2 && p.onS != nil {
+		p.onS() // "shutdown" request: the processor stops the server from the worker goroutine
+	}
+	if buf[8] != 1 { // two-way
 		if err := out.WriteResponseHeader(ctx); err != nil {
 			p.fail("WriteResponseHeader: " + err.Error())
 			return err
@@ -365,7 +389,20 @@ func runScenario(ns *rig.NatsServer, c Config) (res *Result) {
 	defer openGate()
 	rng := rand.New(rand.NewSource(c.Seed))
 
-	srvConn, err := ns.Connect()
+	var srvConn *nats.Conn
+	var err error
+	switch c.DrainTO {
+	case "":
+		srvConn, err = ns.Connect()
+	case "bare": // an application that fills in a nats.Options literal: DrainTimeout stays 0
+		srvConn, err = nats.Options{Url: ns.URL, AllowReconnect: true, MaxReconnect: -1, Timeout: 10 * time.Second}.Connect()
+	default:
+		d, perr := time.ParseDuration(c.DrainTO)
+		if perr != nil {
+			return s.inconclusive("bad drain timeout %q", c.DrainTO)
+		}
+		srvConn, err = nats.Connect(ns.URL, nats.MaxReconnects(-1), nats.Timeout(10*time.Second), nats.DrainTimeout(d))
+	}
 	if err != nil {
 		return s.inconclusive("connect: %v", err)
 	}
@@ -404,14 +441,34 @@ func runScenario(ns *rig.NatsServer, c Config) (res *Result) {
 		wantSubs++
 	}
 
+	var workerStop func() // set below, before any request is published
 	pf := frugal.NewFProtocolFactory(thrift.NewTBinaryProtocolFactoryConf(nil))
 	server := frugal.NewFNatsServerBuilder(srvConn, s.proc, pf, subjects).
 		WithWorkerCount(uint(c.W)).
 		WithQueueLength(uint(c.Q)).
-		WithRequestReceivedEventHandler(func(map[interface{}]interface{}) { s.received.Add(1) }).
-		WithRequestStartedEventHandler(func(map[interface{}]interface{}) { s.started.Add(1) }).
-		WithRequestFinishedEventHandler(func(map[interface{}]interface{}) { s.finished.Add(1) }).
+		WithRequestReceivedEventHandler(func(props map[interface{}]interface{}) {
+			// one subject => one subscription => callbacks in publication
+			// order: the (K1+1)-th is the shutdown request S
+			if n := s.received.Add(1); c.StopFrom != "" && n == int64(c.K1+1) {
+				props[shutdownKey{}] = true
+			}
+		}).
+		WithRequestStartedEventHandler(func(props map[interface{}]interface{}) {
+			s.started.Add(1)
+			if c.StopFrom == "started" && props[shutdownKey{}] == true {
+				workerStop()
+			}
+		}).
+		WithRequestFinishedEventHandler(func(props map[interface{}]interface{}) {
+			s.finished.Add(1)
+			if c.StopFrom == "finished" && props[shutdownKey{}] == true {
+				workerStop()
+			}
+		}).
 		Build()
+	if c.StopFrom == "processor" {
+		s.proc.onS = func() { workerStop() }
+	}
 
 	// ---- request plan -------------------------------------------------
 	class := map[uint64]int{}
@@ -428,6 +485,16 @@ func runScenario(ns *rig.NatsServer, c Config) (res *Result) {
 	var pre, during, after []uint64
 	for i := 0; i < c.K; i++ {
 		pre = append(pre, newID(classPre))
+	}
+	// publication order of the "received before Stop" requests; with
+	// StopFrom the shutdown request S sits after K1 of them
+	preSeq := pre
+	shutdownID := uint64(0)
+	if c.StopFrom != "" {
+		shutdownID = newID(classPre)
+		delete(oneway, shutdownID)
+		k1 := imin(c.K1, len(pre))
+		preSeq = append(append(append([]uint64(nil), pre[:k1]...), shutdownID), pre[k1:]...)
 	}
 	rest := c.B - c.K
 	nDuring, nAfter := 0, 0
@@ -446,7 +513,7 @@ func runScenario(ns *rig.NatsServer, c Config) (res *Result) {
 	for i := 0; i < nAfter+1; i++ { // +1: every scenario probes "after Stop returned"
 		after = append(after, newID(classAfter))
 	}
-	s.res.Requests, s.res.Pre, s.res.During, s.res.After = len(class), len(pre), len(during), len(after)
+	s.res.Requests, s.res.Pre, s.res.During, s.res.After = len(class), len(preSeq), len(during), len(after)
 	duringFlushEvery := 1 + rng.Intn(4)
 	var pubErrMu sync.Mutex
 	var pubErr error
@@ -455,6 +522,9 @@ func runScenario(ns *rig.NatsServer, c Config) (res *Result) {
 		binary.BigEndian.PutUint64(payload, id)
 		if oneway[id] {
 			payload[8] = 1
+		}
+		if id == shutdownID {
+			payload[8] = 2
 		}
 		frame := wire.BuildFrame([]wire.Pair{{Name: "_opid", Value: strconv.FormatUint(id, 10)}, {Name: "_cid", Value: "c20-" + strconv.FormatUint(id, 10)}}, payload)
 		err := pubConn.PublishRequest(subjects[int(id)%len(subjects)], replyPrefix+strconv.FormatUint(id, 10), frame)
@@ -518,12 +588,30 @@ func runScenario(ns *rig.NatsServer, c Config) (res *Result) {
 		close(stopDone)
 	}
 
+	var stopAt time.Time
+	// Stop from inside the request stream: the worker goroutine that handles
+	// the shutdown request S waits until the harness has double-flushed all
+	// K+1 requests (so that they are "received before Stop was called"), then
+	// calls Stop itself.
+	armed := make(chan struct{})
+	var workerStopOnce sync.Once
+	workerStop = func() {
+		workerStopOnce.Do(func() {
+			<-armed
+			s.res.AtStop = s.snap()
+			s.res.QueueFull = s.res.AtStop.Received-s.res.AtStop.Started >= int64(c.Q)
+			s.mark("Stop called on a worker goroutine (" + c.StopFrom + ")")
+			stopAt = time.Now()
+			close(stopCalled)
+			callStop()
+		})
+	}
+
 	// ---- Serve ------------------------------------------------------------
 	serveDone := make(chan struct{})
 	var serveErr error
 	var serveSnap Snap
 	var serveAt time.Time
-	var stopAt time.Time
 	go c20ServeGoroutine(func() {
 		s.serveEntered.Store(true)
 		serveErr = server.Serve()
@@ -568,17 +656,17 @@ func runScenario(ns *rig.NatsServer, c Config) (res *Result) {
 		// ---- phase 1: k requests received before Stop ----------------------
 		switch c.Arrival {
 		case "trickle":
-			for _, id := range pre {
+			for _, id := range preSeq {
 				publish(id)
 				if err := dflush(); err != nil {
 					return s.inconclusive("flush: %v", err)
 				}
 			}
 		case "chunks":
-			for i := 0; i < len(pre); {
-				n := 1 + rng.Intn(1+len(pre)/3)
-				for j := 0; j < n && i < len(pre); j++ {
-					publish(pre[i])
+			for i := 0; i < len(preSeq); {
+				n := 1 + rng.Intn(1+len(preSeq)/3)
+				for j := 0; j < n && i < len(preSeq); j++ {
+					publish(preSeq[i])
 					i++
 				}
 				if err := dflush(); err != nil {
@@ -586,14 +674,14 @@ func runScenario(ns *rig.NatsServer, c Config) (res *Result) {
 				}
 			}
 		default:
-			for _, id := range pre {
+			for _, id := range preSeq {
 				publish(id)
 			}
 		}
 		if err := dflush(); err != nil {
 			return s.inconclusive("flush: %v", err)
 		}
-		if c.Dur == "gate" && c.K > 0 {
+		if c.Dur == "gate" && c.K > 0 && c.StopFrom == "" {
 			// handlers are parked on the gate: wait until the server is in the
 			// state "all workers busy, queue full, callback blocked" (or holds
 			// everything, if k is smaller than that)
@@ -610,12 +698,17 @@ func runScenario(ns *rig.NatsServer, c Config) (res *Result) {
 		}
 
 		// ---- Stop ----------------------------------------------------------
-		s.res.AtStop = s.snap()
-		s.res.QueueFull = s.res.AtStop.Received-s.res.AtStop.Started >= int64(c.Q)
-		s.mark("Stop called")
-		stopAt = time.Now()
-		close(stopCalled)
-		go c20StopGoroutine(callStop)
+		if c.StopFrom != "" {
+			s.mark("all requests double-flushed, shutdown request released")
+			close(armed) // S (being handled, or still queued) may call Stop now
+		} else {
+			s.res.AtStop = s.snap()
+			s.res.QueueFull = s.res.AtStop.Received-s.res.AtStop.Started >= int64(c.Q)
+			s.mark("Stop called")
+			stopAt = time.Now()
+			close(stopCalled)
+			go c20StopGoroutine(callStop)
+		}
 	}
 	if !s.await(stopDone) {
 		return s.hung("Stop did not return")
@@ -694,7 +787,7 @@ func runScenario(ns *rig.NatsServer, c Config) (res *Result) {
 	if pe != nil {
 		return s.inconclusive("publish error: %v", pe)
 	}
-	if stopErr != nil || serveErr != nil {
+	if serveErr != nil {
 		return s.inconclusive("Stop error %v / Serve error %v", stopErr, serveErr)
 	}
 	s.proc.mu.Lock()
@@ -779,6 +872,20 @@ func runScenario(ns *rig.NatsServer, c Config) (res *Result) {
 	}
 	if badReply != "" {
 		s.violation("C20:reply-mismatch", badReply, map[string]interface{}{"counters": counters})
+	}
+	if stopErr != nil {
+		// An error from Stop is not itself against the property.  The per-id
+		// facts above stand on their own (the server connection answered a
+		// Flush after Serve returned, so it was healthy); without any, the
+		// scenario decides nothing.
+		if len(s.res.Violations) == 0 {
+			return s.inconclusive("Stop returned an error: %v", stopErr)
+		}
+		for i := range s.res.Violations {
+			if w, ok := s.res.Violations[i].Witness.(map[string]interface{}); ok {
+				w["stop_error"] = stopErr.Error()
+			}
+		}
 	}
 	s.finish()
 	return s.res
